@@ -7,7 +7,7 @@ import (
 func init() {
 	register("C09", []string{"."}, runC09)
 	propTechnique["C09"] = "SSA must-facts dataflow over the range-key masking state (tag coherence between the active mask and the block-property filter; the filter and the point skip are consulted only on the mask-active edge)"
-	propExplain["C09"] = "Decides the clauses of C09 that are in the shape of the masking code — 'no other point is hidden' and 'the same with or without a block-property filter mask' on their state-machine side; the three-way suffix comparison s <= r < p itself is value-level (it needs the comparer's semantics) and is not decided. (M1) at every return of rangeKeyMasking.SpanChanged the block-property filter is coherent with the mask state: either no span is masking (maskSpan is nil), or no filter is configured, or filter.SetSuffix was called after the last change of the active mask suffix — a filter left with the previous span's suffix skips blocks whose points the new span does not mask; (M2) Intersects and SyntheticSuffixIntersects pass the decision to the user's filter only on the maskSpan != nil edge (with no active mask every block intersects); (M3) SkipPoint answers true only on the maskSpan != nil edge. (M4) KeyIsWithinLowerBound / KeyIsWithinUpperBound compare the masking span's Start / End with the whole block bound they are given, not with a part of it. Does not decide which suffixes mask which (value-level), nor the direction and strictness of the bound comparisons."
+	propExplain["C09"] = "Decides the clauses of C09 that are in the shape of the masking code — 'no other point is hidden' and 'the same with or without a block-property filter mask' on their state-machine side; the three-way suffix comparison s <= r < p itself is value-level (it needs the comparer's semantics) and is not decided. (M1) at every return of rangeKeyMasking.SpanChanged the block-property filter is coherent with the mask state: either no span is masking (maskSpan is nil), or no filter is configured, or filter.SetSuffix was called after the last change of the active mask suffix — a filter left with the previous span's suffix skips blocks whose points the new span does not mask; (M2) Intersects and SyntheticSuffixIntersects pass the decision to the user's filter only on the maskSpan != nil edge (with no active mask every block intersects), and ask it the same question they were asked — the method of the same name with all of their own parameters, so a table's synthetic suffix is never dropped; (M3) SkipPoint answers true only on the maskSpan != nil edge. (M4) KeyIsWithinLowerBound / KeyIsWithinUpperBound compare the masking span's Start / End with the whole block bound they are given, not with a part of it. Does not decide which suffixes mask which (value-level), nor the direction and strictness of the bound comparisons."
 }
 
 func runC09(c *Ctx) {
@@ -93,6 +93,28 @@ func runC09(c *Ctx) {
 		res := fl.Analyze(fn, emptyState())
 		c.noteFlow(fl)
 		n2 += c.Require("C09.M2", res, consult, "the user's block-property filter decides only while a range key is masking", []string{"mask-active"})
+		// pass-through agreement (added after seed C09-b): the wrapper asks the user's filter the
+		// SAME question it was asked — the method of the same name, with all of its own parameters.
+		// Asking Intersects(prop) for a table with a synthetic suffix judges the block by the
+		// suffixes its keys no longer carry.
+		for _, in := range instrs(fn, consult) {
+			cc := getCallCommon(in)
+			same := infoOfCommon(cc).Short == fn.Name()
+			params := fn.Params[1:]
+			args := cc.Args
+			if !cc.IsInvoke() && len(args) > 0 {
+				args = args[1:]
+			}
+			allPassed := len(args) == len(params)
+			for i := range params {
+				if i >= len(args) || stripConv(args[i]) != ssa.Value(params[i]) {
+					allPassed = false
+				}
+			}
+			ok := same && allPassed
+			c.Ob("C09.M2", fn, "the wrapper passes its own question on to the user's filter unchanged", c.P.Pos(in.Pos()), ok,
+				map[bool]string{true: "", false: "the user's filter is asked " + infoOfCommon(cc).Short + " instead of " + fn.Name() + " with this call's parameters"}[ok])
+		}
 	}
 	if n2 < 2 {
 		c.Unresolved("C09.M2", "the pass-through calls to the user filter were not found")
